@@ -47,11 +47,16 @@ def main():
                 shutil.copy(dm, dst)
                 placed.append((sub, dst))
             pkgs = sorted({"./" + s for s, _ in placed})
-            rc3, o3 = sh(["go", "test", "-count=1"] + pkgs, cwd=wt, timeout=900)
+            test_cmd = ["go", "test", "-count=1"] + pkgs
+            if os.path.exists(os.path.join(d, "run.txt")):
+                # the author's demonstration needs its own command (e.g. `-race -run TestX`, run on its own)
+                test_cmd = open(os.path.join(d, "run.txt")).read().split()
+                meta["demo_command"] = " ".join(test_cmd)
+            rc3, o3 = sh(test_cmd, cwd=wt, timeout=900)
             meta["demo_fails_with_change"] = rc3 != 0
             meta["demo_output_with_change"] = o3[-600:]
             sh(["git", "apply", "-R", patch], cwd=wt)
-            rc4, o4 = sh(["go", "test", "-count=1"] + pkgs, cwd=wt, timeout=900)
+            rc4, o4 = sh(test_cmd, cwd=wt, timeout=900)
             meta["demo_passes_without_change"] = rc4 == 0
             if rc4 != 0:
                 meta["demo_output_without_change"] = o4[-600:]
